@@ -27,6 +27,19 @@ stack that is not one of the admissible witnesses (does not pass the intermediat
 empty-result behaviour for the mode; duplicates; any exception other than BobError.
 Not P (recorded, exit status unchanged): queryAll not listing every admissible witness; behaviour in
 the cases where the manual does not decide the nullglob class ("either").
+
+Signatures (stable, one VIOLATION per signature with count + examples in the replay file):
+  result-missing:nested-descendant-match   missing packages in a case where a multi-hop step matches a package
+                                           below another match with non-matching packages in between
+  result-missing | result-extra | result-differs      any other wrong package set
+  witness-not-admissible    reported stack is real, ends at a result, stays inside the packages visited by the
+                            step-wise evaluation, but skips / does not follow the intermediate steps
+  witness-outside-visited   reported stack runs through a package the step-wise evaluation never visits
+  path-not-real | path-endpoint-mismatch | duplicates-first | duplicates-all
+  unexpected-error:empty-result:<mode> | unexpected-error:nonempty-result | missing-error:empty-result:<mode>
+  exception:<Type>          anything but BobError
+Development knobs (never needed for a regular run): VF_WORKERS caps pool and TLC workers,
+VF_C18_GRAPHS=1,7,... replays only those graphs (evidence level drops to exploration).
 """
 import json
 import multiprocessing as mp
@@ -420,7 +433,6 @@ def case_features(cases, graphs):
         f["predicate_nonempty"] += bool(c["pred"] and exp)
         f["alias"] += c["q"].startswith(("top", "deepb"))
         f["root_in_result"] += 0 in exp
-        nm = [G.names[v] for v in exp]
         twins = [v for v in range(1, G.n + 1) if G.names.count(G.names[v]) > 1]
         f["variant_separated"] += bool(twins) and len(exp & set(twins)) == 1
     return f
